@@ -351,8 +351,9 @@ def check_c12(tier, seed):
                         'handler names are unique (name-keyed views cannot represent duplicates; the library warns at registration)'],
         'wall_s': round(time.time() - t0, 2), 'violations': len(viol),
     }
-    os.makedirs(os.path.join(VERIF, 'evidence'), exist_ok=True)
-    json.dump(ev, open(os.path.join(VERIF, 'evidence', 'C12.json'), 'w'), indent=1, default=str)
+    if not os.environ.get('VERIF_NO_EVIDENCE'):
+        os.makedirs(os.path.join(VERIF, 'evidence'), exist_ok=True)
+        json.dump(ev, open(os.path.join(VERIF, 'evidence', 'C12.json'), 'w'), indent=1, default=str)
     print('C12 %s: %d type cases + %d view cases enumerated by TLC, %d concrete evaluations, %d mismatches, wall %.1fs' % (
         tier, len(tcases), len(vcases), evals, len(bad), time.time() - t0))
     return rc
